@@ -209,7 +209,7 @@ func init() {
 				must(copyFile(filepath.Join(env.repo, "ptt", "testcase", ".PASSWDS1"), filepath.Join(env.home, ".PASSWDS")))
 				os.Remove(filepath.Join(env.home, ".post"))
 				return ok()
-			case 1: // 1 | ui bi seed | class | title | lines | ip
+			case 1: // 1 | ui bi seed [edge_us] | class | title | lines | ip
 				u := c09Users[ai(args[1][0])]
 				b := c09Boards[ai(args[1][1])]
 				seed := ai(args[1][2])
@@ -223,7 +223,15 @@ func init() {
 				cache.Shm.Shm.CooldownTime[u.uid-1] = 0 // the posting cool-down is another property's subject
 				pre := c09State(env)
 				// keep the whole call inside one wall-clock second whenever possible
-				if ns := time.Now().Nanosecond(); ns > 900_000_000 {
+				if len(args[1]) > 3 && ai(args[1][3]) > 0 {
+					// edge case on request: start just before the second changes, so that the clock readings differ
+					ns := time.Now().Nanosecond()
+					wait := 1_000_000_000 - ns - int(ai(args[1][3]))*1000
+					if wait < 0 {
+						wait += 1_000_000_000
+					}
+					time.Sleep(time.Duration(wait) * time.Nanosecond)
+				} else if ns := time.Now().Nanosecond(); ns > 900_000_000 {
 					time.Sleep(time.Duration(1_000_000_000-ns+2_000_000) * time.Nanosecond)
 				}
 				rand.Seed(seed)
